@@ -191,3 +191,280 @@ def quoting_contracts():
     c.cases = [(cls, {"value": "pyval", "__cls__": cls}) for cls in ("PVLEncoder", "ODLEncoder", "PDSLabelEncoder", "ISISEncoder")]
     out.append(c)
     return out
+
+
+# ------------------------------------------------------------------------------------------------
+# T_time: encode_time of the three dialect families (C14, C01): the written fields are the value's
+# fields at its precision, the written zone denotes the value's offset - or the encoder refuses
+
+def time_contracts(pid="C14"):
+    from ..pyvc.timetheory import parts_of, fmt
+    E = "pvl.encoder."
+    TZ = z3.Const("self_time_trailing_z", z3.BoolSort())
+
+    def F(a):
+        f = a["value"].info["fields"]
+        return tuple(f[k] for k in ("hour", "minute", "second", "microsecond"))
+
+    def off(a):
+        return a["value"].info["off"]
+
+    def aware(a):
+        return z3.Not(a["value"].info["tz_none"])
+
+    def same(parts, expected):
+        """structural equality of two part lists; integer terms compared by z3"""
+        if len(parts) != len(expected):
+            return z3.BoolVal(False)
+        conj = []
+        for p, e in zip(parts, expected):
+            if p[0] != e[0]:
+                return z3.BoolVal(False)
+            if p[0] == "lit":
+                if p[1] != e[1]:
+                    return z3.BoolVal(False)
+            elif p[0] == "strftime":
+                if p[1] != e[1]:
+                    return z3.BoolVal(False)
+                conj += [x == y for x, y in zip(p[2], e[2])]
+            elif p[0] == "int":
+                if p[1] != e[1]:
+                    return z3.BoolVal(False)
+                conj.append(p[2] == e[2])
+            else:
+                return z3.BoolVal(False)
+        return z3.And(*conj) if conj else z3.BoolVal(True)
+
+    def hms(a, seconds_spec):
+        """expected text of the fields: HH:MM, then :SS[.fraction] only when non-zero"""
+        f = F(a)
+        return [("strftime", "%H:%M", f)] + ([("lit", ":"), ("strftime", seconds_spec, f)] if seconds_spec else [])
+
+    def pvl_time_post(pre, post, a, r):
+        p = parts_of(r)
+        if p and p[0][0] == "pvl-time-text":
+            return []          # call site: the callee's text is the opaque part standing for exactly this postcondition
+        sec, us = F(a)[2], F(a)[3]
+        return [("fraction written exactly when microsecond != 0", z3.Implies(us != 0, same(p, hms(a, "%S.%f")))),
+                ("seconds written when non-zero", z3.Implies(z3.And(us == 0, sec != 0), same(p, hms(a, "%S")))),
+                ("HH:MM alone only when seconds and fraction are zero", z3.Implies(z3.And(us == 0, sec == 0), same(p, hms(a, None))))]
+
+    def nonutc(pre, a):
+        return z3.And(aware(a), off(a) != 0)
+
+    pvl_time = Contract(E + "PVLEncoder.encode_time", params={"value": "timeval"}, exits=[
+        Exit("return", res="fmt", when=lambda pre, a: z3.Not(nonutc(pre, a)), post=pvl_time_post),
+        Exit("ValueError", when=nonutc)], props=("C14", "C01"))
+
+    # at a call site the callee's text is one opaque part carrying the fields it was called with
+    def pvl_time_value(ex):
+        a = ex.st.ghost["call_args"]
+        return fmt([("pvl-time-text", "", F(a))])
+    pvl_time_call = pvl_time.exits[0]
+    pvl_time_call.res = pvl_time_value
+
+    def odl_split(parts):
+        """-> (head parts, sign literal, hour term, minute term or None) or None"""
+        if len(parts) >= 3 and parts[-2][0] == "lit" and parts[-2][1] in "+-" and parts[-1][0] == "int" and parts[-1][1] == "02d":
+            return parts[:-2], parts[-2][1], parts[-1][2], None
+        if (len(parts) >= 5 and parts[-4][0] == "lit" and parts[-4][1] in "+-" and parts[-3][0] == "int" and parts[-3][1] == "02d"
+                and parts[-2] == ("lit", ":") and parts[-1][0] == "int" and parts[-1][1] == "02d"):
+            return parts[:-4], parts[-4][1], parts[-3][2], parts[-1][2]
+        return None
+
+    def head_ok(head, a):
+        return len(head) == 1 and head[0][0] == "pvl-time-text" and all(x is y or x.eq(y) for x, y in zip(head[0][2], F(a)))
+
+    def odl_refuses(pre, a):
+        o = off(a)
+        ao = z3.If(o >= 0, o, -o)
+        whole_minutes = z3.ToReal(z3.ToInt(ao / 60)) * 60 == ao
+        return z3.Or(z3.Not(aware(a)), z3.And(o != 0, z3.Or(z3.Not(whole_minutes), ao >= 13 * 3600)))
+
+    def odl_time_post(pre, post, a, r):
+        p = parts_of(r)
+        o = off(a)
+        out = []
+        if p and p[-1] == ("lit", "Z"):
+            out.append(("Z only for a zero offset", o == 0))
+            out.append(("time text of the value's own fields", z3.BoolVal(head_ok(p[:-1], a))))
+            return out
+        sp = odl_split(p)
+        if sp is None:
+            return [("text is <time>Z or <time><sign>HH[:MM]", z3.BoolVal(False))]
+        head, sign, h, m = sp
+        sgn = 1 if sign == "+" else -1
+        mm = m if m is not None else z3.IntVal(0)
+        out.append(("time text of the value's own fields", z3.BoolVal(head_ok(head, a))))
+        out.append(("the written offset denotes the value's offset", z3.ToReal(sgn * (h * 3600 + mm * 60)) == o))
+        out.append(("offset is not zero here", o != 0))
+        out.append(("hours 0..12, minutes 0..59", z3.And(h >= 0, h <= 12, mm >= 0, mm <= 59)))
+        out.append(("minutes are written exactly when non-zero", z3.BoolVal(m is None) == (mm == 0) if m is None else m != 0))
+        return out
+
+    odl_time = Contract(E + "ODLEncoder.encode_time", params={"value": "timeval"}, exits=[
+        Exit("return", res="fmt", when=lambda pre, a: z3.Not(odl_refuses(pre, a)), post=odl_time_post),
+        Exit("ValueError", when=odl_refuses)], props=("C14", "C01"))
+
+    def pds_refuses(pre, a):
+        us = F(a)[3]
+        return z3.Or(us % 1000 != 0, nonutc(pre, a))
+
+    def pds_time_post(pre, post, a, r):
+        p = list(parts_of(r))
+        sec, us = F(a)[2], F(a)[3]
+        f = F(a)
+        out = []
+        hasz = bool(p) and p[-1] == ("lit", "Z")
+        out.append(("trailing Z exactly when configured", TZ == z3.BoolVal(hasz)))
+        if hasz:
+            p = p[:-1]
+        with_ms = [("strftime", "%H:%M", f), ("lit", ":"), ("strftime", "%S", f), ("lit", "."), None]
+        if len(p) == 5 and p[4][0] == "int":
+            ms = p[4][2]
+            out.append(("milliseconds written with three digits and denote the value's fraction",
+                        z3.And(z3.BoolVal(p[4][1] == "03d"), ms * 1000 == us, same(p[:4], with_ms[:4]))))
+            out.append(("fraction written only when non-zero", us != 0))
+        else:
+            out.append(("no fraction only when microsecond == 0", us == 0))
+            out.append(("seconds written when non-zero", z3.Implies(sec != 0, same(p, hms(a, "%S")))))
+            out.append(("HH:MM alone only when seconds are zero", z3.Implies(sec == 0, same(p, hms(a, None)))))
+        return out
+
+    pds_time = Contract(E + "PDSLabelEncoder.encode_time", params={"value": "timeval"}, exits=[
+        Exit("return", res="fmt", when=lambda pre, a: z3.Not(pds_refuses(pre, a)), post=pds_time_post),
+        Exit("ValueError", when=pds_refuses)], props=("C14", "C01"))
+    def make_replayer(cls_name):
+        def replayer(model, args, ex):
+            """the verifier's counter-model is a concrete time value: run the real encoder on it and read the text back
+            with the dialect's own decoder"""
+            import datetime as dt
+            import pvl.encoder as M
+            import pvl.decoder as D
+            v = args["value"]
+
+            def num(t):
+                x = model.eval(t, model_completion=True)
+                if z3.is_int_value(x):
+                    return x.as_long()
+                return x.numerator_as_long() / x.denominator_as_long()
+            f = {k: num(t) for k, t in v.info["fields"].items()}
+            naive = z3.is_true(model.eval(v.info["tz_none"], model_completion=True))
+            off = num(v.info["off"])
+            tz = None if naive else dt.timezone(dt.timedelta(seconds=off))
+            value = dt.time(f["hour"], f["minute"], f["second"], f["microsecond"], tzinfo=tz)
+            kw = {}
+            if cls_name == "PDSLabelEncoder":
+                kw["time_trailing_z"] = z3.is_true(model.eval(TZ, model_completion=True))
+            enc = getattr(M, cls_name)(**kw)
+            dec = {"PVLEncoder": D.PVLDecoder, "ODLEncoder": D.ODLDecoder, "PDSLabelEncoder": D.PDSLabelDecoder}[cls_name]()
+            us = f["microsecond"]
+            nonutc_ = (not naive) and off != 0
+            if cls_name == "PVLEncoder":
+                may_refuse = nonutc_
+            elif cls_name == "ODLEncoder":
+                may_refuse = naive or (off != 0 and (abs(off) % 60 != 0 or abs(off) >= 13 * 3600))
+            else:
+                may_refuse = us % 1000 != 0 or nonutc_
+            key = f"{pid}:encode_time:{cls_name}:{value!r}"
+            try:
+                text = enc.encode_time(value)
+            except ValueError as e:
+                if may_refuse:
+                    return None
+                return (key, f"{cls_name}().encode_time({value!r}) refuses a value the dialect can represent: {e}",
+                        {"value": repr(value), "function": f"pvl.encoder.{cls_name}.encode_time"})
+            if may_refuse:
+                return (key, f"{cls_name}().encode_time({value!r}) wrote {text!r} for a value the dialect cannot represent",
+                        {"value": repr(value), "text": text, "function": f"pvl.encoder.{cls_name}.encode_time"})
+            try:
+                back = dec.decode_datetime(text)
+            except ValueError:
+                back = None
+            want_off = dt.timedelta(0) if (naive or off == 0) else dt.timedelta(seconds=off)
+            ok = (isinstance(back, dt.time) and (back.hour, back.minute, back.second, back.microsecond) ==
+                  (value.hour, value.minute, value.second, value.microsecond)
+                  and (back.utcoffset() or dt.timedelta(0)) == want_off)
+            if ok:
+                return None
+            return (key, f"{cls_name}().encode_time({value!r}) wrote {text!r}, which the dialect's decoder reads as {back!r}",
+                    {"value": repr(value), "text": text, "read_back": repr(back), "function": f"pvl.encoder.{cls_name}.encode_time"})
+        return replayer
+    pvl_time.replayer = make_replayer("PVLEncoder")
+    odl_time.replayer = make_replayer("ODLEncoder")
+    pds_time.replayer = make_replayer("PDSLabelEncoder")
+    return [pvl_time, odl_time, pds_time]
+
+
+# ------------------------------------------------------------------------------------------------
+# T_enc on pvl/token.py: the table-search predicates of Token (C17)
+
+def token_contracts():
+    from ..pyvc.core import LoopSpec
+    from ..pyvc.objtheory import S, lit, casefold, prefixof, suffixof
+    from ..pyvc.lextheory import set_has, sub_in, tid, pairs_has
+    from ..pyvc import enctheory as TE
+    from ..pyvc.enctheory import cf_in, sub_any, tok_pred, pred_id, CONFIGURED, pair_part_in, comment_match
+    T = "pvl.token.Token."
+    RC, WS, RK = tid("g.reserved_characters"), tid("g.whitespace"), tid("g.reserved_keywords")
+    ES, DL, CM = tid("g.end_statements"), tid("g.delimiters"), tid("g.comments")
+    AK = tid("g.aggregation_keywords.keys")
+    NL = lit("\n")
+
+    def t_of(a_or_env):
+        v = a_or_env["self"]
+        return v.info["text"]
+
+    def dec(name, t):
+        return tok_pred(pred_id(name), CONFIGURED, t)
+
+    def numeric(t):
+        return z3.Or(dec("decode_decimal", t), dec("decode_non_decimal", t))
+
+    def unq(t):
+        """an unquoted string of the grammar: no reserved character, no comment delimiter, no white space, and not
+        readable as a number or a date/time (statement: 'text that decodes to a number or a date/time is never
+        accepted as an unquoted string or parameter name')"""
+        return z3.And(z3.Not(sub_any(RC, t)), z3.Not(pair_part_in(CM, t)), z3.Not(numeric(t)),
+                      z3.Not(dec("decode_datetime", t)), z3.Not(sub_any(WS, t)))
+
+    def not_sub(table):
+        return LoopSpec(fall_through=lambda env, st, x: [("member not in the text", z3.Not(sub_in(x, t_of(env))))],
+                        exit=lambda env, st: [("no member in the text", z3.Not(sub_any(table, t_of(env))))])
+
+    def not_cf(table):
+        return LoopSpec(fall_through=lambda env, st, x: [("member does not casefold-equal the text", casefold(x) != casefold(t_of(env)))],
+                        exit=lambda env, st: [("no member casefold-equals the text", z3.Not(cf_in(table, casefold(t_of(env)))))])
+    pair_loop = LoopSpec(
+        fall_through=lambda env, st, x: [("neither delimiter of the pair in the text",
+                                          z3.And(z3.Not(sub_in(x[0], t_of(env))), z3.Not(sub_in(x[1], t_of(env)))))],
+        exit=lambda env, st: [("no comment delimiter in the text", z3.Not(pair_part_in(CM, t_of(env))))])
+
+    def cm(t, a, b):
+        return z3.And(prefixof(t, a), z3.Or(suffixof(t, b), z3.And(b == NL, z3.Not(sub_in(NL, t)))))
+    comment_loop = LoopSpec(
+        fall_through=lambda env, st, x: [("the pair does not delimit the text", z3.Not(cm(t_of(env), x[0], x[1])))],
+        exit=lambda env, st: [("no pair delimits the text", z3.Not(comment_match(CM, t_of(env))))])
+
+    out = []
+
+    def pred(name, spec, loops=None, props=("C17",)):
+        c = Contract(T + name, params={}, loops=loops or {}, exits=[
+            Exit("return", res="bool", post=lambda pre, post, a, r: [(f"{name} == its definition over the grammar tables and the decoder",
+                                                                     r.t == spec(t_of(a)))])], props=props)
+        out.append(c)
+        return c
+
+    for nm in ("decode_decimal", "decode_non_decimal", "decode_datetime", "decode_quoted_string", "decode_simple_value"):
+        pred({"decode_decimal": "is_decimal", "decode_non_decimal": "is_non_decimal", "decode_datetime": "is_datetime",
+              "decode_quoted_string": "is_quoted_string", "decode_simple_value": "is_simple_value"}[nm],
+             (lambda nm: lambda t: dec(nm, t))(nm))
+    pred("is_numeric", numeric)
+    pred("is_unquoted_string", unq, loops={0: not_sub(RC), 1: pair_loop, 2: not_sub(WS)})
+    pred("is_parameter_name", lambda t: z3.And(z3.Not(cf_in(RK, casefold(t))), unq(t)), loops={0: not_cf(RK)})
+    pred("is_begin_aggregation", lambda t: cf_in(AK, casefold(t)), loops={0: not_cf(AK)}, props=("C17", "C03"))
+    pred("is_end_statement", lambda t: cf_in(ES, casefold(t)), loops={0: not_cf(ES)}, props=("C17", "C03"))
+    pred("is_delimiter", lambda t: set_has(DL, t), props=("C03",))
+    pred("is_comment", lambda t: comment_match(CM, t), loops={0: comment_loop}, props=("C04",))
+    pred("is_string", lambda t: z3.Or(dec("decode_quoted_string", t), unq(t)))
+    return out
